@@ -255,4 +255,73 @@ theorem distribution_sum_le (hR1 : R < 2 ^ 51) (n : ℤ) (hn0 : 0 ≤ n) (hn : n
 
 end
 
+/-! ### C27: the DPoS 2.0 per-block split (getDPoSV2RewardsV2) -/
+
+/-- `Fixed64(N / totalNI * float64(votesReward))` (non-negative operands: truncation = floor) -/
+def v2ShareQ (fl : ℚ → ℚ) (N NI V : ℤ) : ℤ := ⌊fl (fl ((N : ℚ) / (NI : ℚ)) * (V : ℚ))⌋
+
+theorem v2Share_nonneg {fl : ℚ → ℚ} (h : StdModel fl) {N NI V : ℤ} (hN : 0 ≤ N) (hNI : 0 < NI) (hV : 0 ≤ V) :
+    0 ≤ v2ShareQ fl N NI V := by
+  unfold v2ShareQ
+  apply Int.floor_nonneg.mpr
+  have n0 : (0 : ℚ) ≤ (N : ℚ) := by exact_mod_cast hN
+  have i0 : (0 : ℚ) < (NI : ℚ) := by exact_mod_cast hNI
+  have v0 : (0 : ℚ) ≤ (V : ℚ) := by exact_mod_cast hV
+  exact fl_nonneg h (mul_nonneg (fl_nonneg h (div_nonneg n0 i0.le)) v0)
+
+theorem v2Share_upper {fl : ℚ → ℚ} (h : StdModel fl) {N NI V : ℤ} (hN : 0 ≤ N) (hNI : 0 < NI) (hV : 0 ≤ V) :
+    ((v2ShareQ fl N NI V : ℤ) : ℚ) ≤ (N : ℚ) * ((V : ℚ) * (1 + u) * (1 + u) / (NI : ℚ)) := by
+  have n0 : (0 : ℚ) ≤ (N : ℚ) := by exact_mod_cast hN
+  have i0 : (0 : ℚ) < (NI : ℚ) := by exact_mod_cast hNI
+  have v0 : (0 : ℚ) ≤ (V : ℚ) := by exact_mod_cast hV
+  have hq0 : (0 : ℚ) ≤ (N : ℚ) / NI := div_nonneg n0 i0.le
+  have hq := fl_upper h hq0
+  have hfq0 := fl_nonneg h hq0
+  have hp := fl_upper h (mul_nonneg hfq0 v0)
+  have hfl := Int.floor_le (fl (fl ((N : ℚ) / (NI : ℚ)) * (V : ℚ)))
+  have hu := u_pos
+  have s1 : fl ((N : ℚ) / NI) * V ≤ ((N : ℚ) / NI + u * ((N : ℚ) / NI)) * V := mul_le_mul_of_nonneg_right hq v0
+  have e : (N : ℚ) * ((V : ℚ) * (1 + u) * (1 + u) / (NI : ℚ)) = ((N : ℚ) / NI + u * ((N : ℚ) / NI)) * V * (1 + u) := by
+    field_simp
+  unfold v2ShareQ
+  rw [e]
+  have s2 : fl ((N : ℚ) / NI) * V * (1 + u) ≤ ((N : ℚ) / NI + u * ((N : ℚ) / NI)) * V * (1 + u) :=
+    mul_le_mul_of_nonneg_right s1 (by linarith)
+  linarith
+
+theorem v2Shares_total {fl : ℚ → ℚ} (h : StdModel fl) {NI V : ℤ} (hNI : 0 < NI) (hV : 0 ≤ V)
+    (Ns : List ℤ) (hN : ∀ n ∈ Ns, 0 ≤ n) :
+    (((Ns.map (fun n => v2ShareQ fl n NI V)).sum : ℤ) : ℚ) ≤ ((Ns.sum : ℤ) : ℚ) * ((V : ℚ) * (1 + u) * (1 + u) / (NI : ℚ)) := by
+  induction Ns with
+  | nil => simp
+  | cons n ns ih =>
+    have h1 := v2Share_upper h (hN n (by simp)) hNI hV
+    have h2 := ih (fun m hm => hN m (by simp [hm]))
+    simp only [List.map_cons, List.sum_cons]
+    push_cast
+    linarith
+
+/-- **the voters' shares of one block never exceed the block's reward** (they are parts of
+    `reward*3/4`; two roundings per share cannot lift three quarters above the whole) -/
+theorem v2_shares_le_reward {fl : ℚ → ℚ} (h : StdModel fl) (R : ℤ) (hR : 0 ≤ R)
+    (Ns : List ℤ) (hN : ∀ n ∈ Ns, 0 ≤ n) (hpos : 0 < Ns.sum) :
+    (Ns.map (fun n => v2ShareQ fl n Ns.sum (R * 3 / 4))).sum ≤ R := by
+  have hV0 : 0 ≤ R * 3 / 4 := Int.ediv_nonneg (by omega) (by omega)
+  have hV1 : (R * 3 / 4 : ℤ) * 4 ≤ R * 3 := Int.ediv_mul_le _ (by omega)
+  have t := v2Shares_total h hpos hV0 Ns hN
+  have i0 : (0 : ℚ) < ((Ns.sum : ℤ) : ℚ) := by exact_mod_cast hpos
+  have e : ((Ns.sum : ℤ) : ℚ) * (((R * 3 / 4 : ℤ) : ℚ) * (1 + u) * (1 + u) / ((Ns.sum : ℤ) : ℚ)) =
+      ((R * 3 / 4 : ℤ) : ℚ) * (1 + u) * (1 + u) := by field_simp
+  rw [e] at t
+  have v1 : (((R * 3 / 4 : ℤ) : ℚ)) * 4 ≤ (R : ℚ) * 3 := by exact_mod_cast hV1
+  have v0 : (0 : ℚ) ≤ ((R * 3 / 4 : ℤ) : ℚ) := by exact_mod_cast hV0
+  have r0 : (0 : ℚ) ≤ (R : ℚ) := by exact_mod_cast hR
+  have key : (((Ns.map (fun n => v2ShareQ fl n Ns.sum (R * 3 / 4))).sum : ℤ) : ℚ) ≤ ((R : ℤ) : ℚ) := by
+    have hb : ((R * 3 / 4 : ℤ) : ℚ) * (1 + u) * (1 + u) ≤ (R : ℚ) := by
+      unfold u
+      norm_num
+      nlinarith
+    linarith
+  exact_mod_cast key
+
 end ElaVerif.FloatModel
